@@ -9,7 +9,7 @@
    the Spec oracle only (notes/C11.md). *)
 From Coq Require Import List ZArith.
 From RtoscV Require Import Pretty.Tok Pretty.FloatFmt Pretty.PrintModel Pretty.ScanModel
-  Pretty.Grammar Pretty.PrettyProofs.
+  Pretty.Grammar Pretty.PrettyProofs Pretty.RunProofs.
 Import ListNotations.
 Local Open Scope Z_scope.
 
@@ -45,6 +45,22 @@ Theorem C11_reprint_partial : forall (dec2f dec2d : list Z -> Z) s T o T' w,
   print_arg_vals o (denote s) 0 = Some (T', w) ->
   scan_arg_vals dec2f dec2d T' (Z.of_nat (length s)) = scan_arg_vals dec2f dec2d T (Z.of_nat (length s)).
 Proof. exact sentences_reprint. Qed.
+
+(* NxA repetitions: sentences whose elements are values or "NxV" *)
+Theorem C11_repetitions_agree_partial : forall (dec2f dec2d : list Z -> Z) n v t,
+  1 <= n < 2 ^ 31 -> tokof dec2f dec2d v t ->
+  elof dec2f dec2d [VRep n 0; v] (dec_nat n ++ 120 :: t).
+Proof. exact elof_rep. Qed.
+
+Theorem C11_elements_agree_partial : forall (dec2f dec2d : list Z -> Z) els T,
+  elang dec2f dec2d els T ->
+  count_printed_arg_vals dec2f dec2d T = Ok (true, total_slots els) /\
+  scan_arg_vals dec2f dec2d T (total_slots els) = Ok (concat els, []).
+Proof. exact elements_agree. Qed.
+
+Theorem C11_elements_nonvacuous : forall (dec2f dec2d : list Z -> Z),
+  elang dec2f dec2d [[VRep 5 0; VI 7]; [VT]] (dec_nat 5 ++ 120 :: print_d 7 ++ [32] ++ kw_true).
+Proof. exact ex_elements. Qed.
 
 Theorem C11_nonvacuous :
   Forall wf_word ex_sentence /\ exists T, spell ex_sentence = Some T.
